@@ -223,13 +223,18 @@ def run(ctx):
     ]
     if ctx.thorough or changed:
         extra = []
-        for kind, metric in [("uniform", "euclidean"), ("gaussian", "manhattan"), ("clustered", "cosine"), ("manifold", "euclidean"), ("sparse", "euclidean"),
-                             ("binary", "hamming"), ("clustered", "correlation"), ("uniform", "chebyshev")]:
+        fams = [("uniform", "euclidean"), ("gaussian", "manhattan"), ("clustered", "cosine"), ("manifold", "euclidean"), ("sparse", "euclidean"),
+                ("binary", "hamming"), ("clustered", "correlation"), ("uniform", "chebyshev")]
+        if not ctx.thorough:
+            fams = fams[:3]          # anchored code changed: every build mode, fewer families
+        for kind, metric in fams:
             for lm in (True, False):
                 for ti in (True, False):
-                    extra.append((kind, metric, 3000, dict(n_neighbors=10, low_memory=lm, tree_init=ti, n_jobs=ctx.rng.choice([1, 4, None]))))
-        extra.append(("gaussian", "euclidean", 32768, dict(n_neighbors=10, tree_init=False, low_memory=True, n_jobs=None)))
-        extra.append(("uniform", "euclidean", 16384, dict(n_neighbors=30, low_memory=True, n_jobs=None)))
+                    extra.append((kind, metric, 3000 if ctx.thorough else 2000,
+                                  dict(n_neighbors=10, low_memory=lm, tree_init=ti, n_jobs=ctx.rng.choice([1, 4, None]))))
+        if ctx.thorough:
+            extra.append(("gaussian", "euclidean", 32768, dict(n_neighbors=10, tree_init=False, low_memory=True, n_jobs=None)))
+            extra.append(("uniform", "euclidean", 16384, dict(n_neighbors=30, low_memory=True, n_jobs=None)))
         base += extra
     floors(ctx, base)
     if not changed and unknown:
